@@ -23,6 +23,7 @@ import itertools
 from ..absint import Lin, Obj, SliceV, Sym, Unmodelled
 from ..affsel import Sel
 from ..facepad import AX, AY, FACE, axis_of_dim, face_parts, halo_pieces, norm_form, run, table_for
+from ..harness import foreign_ops
 from ..geometry import link_table
 from ..xmodel import dimsym
 
@@ -500,7 +501,10 @@ def _check_prepad_and_trim(ctx, P, fi, rule="R05.4"):
             if b["padding"] != {AX: Sym("RULE_AX"), AY: Sym("RULE_AY")} or b["fill_value"] != {AX: Sym("FILL_AX"), AY: Sym("FILL_AY")}:
                 bad = bad or "the basic pre-padding does not use the per-axis rule and fill value in force"
             faces, facedim, trim = face_parts(o.value)
-            extra = [e[0] for e in trim if e[0] not in ("isel", "copy", "transpose")]
+            extra, unknown_ops = foreign_ops([e for e in trim if e[0] != "isel"])
+            if unknown_ops:
+                ctx.unknown(rule, inst, f"operation(s) {unknown_ops} after the faces are re-assembled")
+                continue
             if extra:
                 bad = bad or f"after the faces are re-assembled the result goes through {extra}: only the trim to the requested widths may follow"
             # final trim: compose selections on the concatenated result
